@@ -77,7 +77,8 @@ def run_scenario(outcomes, lifetimes, close_iter, cfg, horizon=30.0, tail=40.0, 
             raise
         if "fail" in oc:
             ev.append(_ev("attempt_end", loop.time(), i, ok=False))
-            raise OSError("connect failed")
+            # a failed attempt is a failed attempt whatever the factory raises
+            raise [OSError, TimeoutError, ConnectionRefusedError, asyncio.TimeoutError, RuntimeError, ValueError, EOFError][(i + len(outcomes)) % 7]("connect failed")
         q = asyncio.Queue()
         p = mc.SmartMeterMessageProtocol(q, [HdlcFrameReader()])
         t = T(i)
@@ -406,6 +407,12 @@ def run_c18(chk: Check) -> int:
         n = chk.rng.randint(5, 8)
         scripts.append((tuple(chk.rng.choice(["fail", "fail", "slowfail", "ok"]) for _ in range(n)),
                         tuple(chk.rng.choice([0.5, 1, 2, 4, None]) for _ in range(n)), chk.rng.choice(CFGS)))
+    # scripted: k failures after two quick losses (breaker tripped), then a success and a later loss -- and the mirror cases
+    for k in range(1, 7):
+        for cfg in CFGS:
+            scripts.append((("ok", "ok") + ("fail",) * k + ("ok", "ok", "fail", "ok"), (1, 1) + (None,) * k + (20, 1, None, 3), cfg))
+            scripts.append((("fail",) * k + ("ok", "ok", "ok") + ("fail",) * 2 + ("ok",), (None,) * k + (1, 1, 9) + (None,) * 2 + (2,), cfg))
+            scripts.append((("ok", "fail", "ok") * 2 + ("fail",) * k + ("ok",), (1, None, 1) * 2 + (None,) * k + (30,), cfg))
     with mp.Pool(16) as pool:
         res = pool.map(_job_pacing, [scripts[j::16] for j in range(16)])
     traces2 += [t for r in res for t in r]
@@ -428,7 +435,7 @@ def _job_pacing(scripts):
     logging.disable(logging.CRITICAL)
     out = []
     for outcomes, lifetimes, cfg in scripts:
-        t, _, _ = trace_of(outcomes, lifetimes, None, cfg, "rand:pacing", horizon=120.0)
+        t, _, _ = trace_of(outcomes, lifetimes, None, cfg, "rand:pacing", horizon=240.0)
         out.append(t)
     return out
 
